@@ -309,6 +309,17 @@ def stepSeq (st : St) (op : String) (ins impl : List String) : Option (St × Str
     let s ← st
     let n ← runP pNat ins
     pure (some (s.step (.update ⟨emptyWeekly, n⟩)), verdict (impl == ["200"]) none "200")
+  | "C18.sget" => do
+    -- GET /control/blocked_services/get reads back exactly what is stored (zone by its loaded name,
+    -- every day range, the number of IDs) — also while no service is blocked
+    let s ← st
+    if ins != [] then failure
+    let d := s.global.sched.days
+    let rs := [d.sun, d.mon, d.tue, d.wed, d.thu, d.fri, d.sat]
+    let model := tabs (["200", hexEncode (locName s.global.sched.loc)] ++
+      rs.flatMap (fun r => [toString r.start, toString r.stop]) ++ [toString s.global.nIDs])
+    let spec := if model == tabs impl then none else some "C18.stored-schedule-not-read-back"
+    pure (st, verdict (model == tabs impl) spec model)
   | "C18.sset" => do
     let s ← st
     let n ← runP pNat ins
